@@ -404,4 +404,24 @@ Proof.
   destruct (SpecProofs.validity (power c) power_nonneg (committee c) honest input Hbyz _ _ (network_refines_spec acts Hok) D) as [_ H]. exact H.
 Qed.
 
+(* ---------- further consequences of the refinement, stated on the network ---------- *)
+(* an honest member never casts two different votes in the same (round, step) -- over the WHOLE network history *)
+Theorem network_one_vote_per_slot acts s r p x y : all_ok net0 acts -> honest s = true ->
+  In (Spec.V s r p x) (n_votes (nrun net0 acts)) -> In (Spec.V s r p y) (n_votes (nrun net0 acts)) -> x = y.
+Proof.
+  intros Hok Hs Hx Hy. destruct (SpecProofs.reachable_inv _ _ _ _ _ (network_refines_spec acts Hok)) as [_ Hu].
+  exact (Hu s r p x y Hs Hx Hy).
+Qed.
+
+(* the COMMIT lock, the heart of GossiPBFT's safety: once a strong quorum has committed v0 in round r0, in every later round
+   the only value that can gather a strong PREPARE quorum is v0, and bottom can never gather a strong COMMIT quorum *)
+Theorem network_commit_lock acts r0 v0 r : all_ok net0 acts ->
+  Spec.SQ (power c) (committee c) honest (n_votes (nrun net0 acts)) r0 Spec.COMMIT (Some v0) -> (r0 <= r)%nat ->
+  (forall x, Spec.SQ (power c) (committee c) honest (n_votes (nrun net0 acts)) r Spec.PREPARE x -> x = Some v0) /\
+  ~ Spec.SQ (power c) (committee c) honest (n_votes (nrun net0 acts)) r Spec.COMMIT None.
+Proof.
+  intros Hok Hc Hr. pose proof (SpecProofs.reachable_inv _ _ _ _ _ (network_refines_spec acts Hok)) as HInv.
+  exact (SpecProofs.lock_all (power c) power_nonneg (committee c) honest input Hbyz _ HInv r0 v0 Hc r Hr).
+Qed.
+
 End Net.
